@@ -139,6 +139,8 @@ func (f *Frame) instr(in ssa.Instruction) {
 		k := f.val(in.Key)
 		v := f.val(in.Value)
 		f.safetyOblig("nil-map-write", in, not(eq(m.S, "nilptr")))
+		// assignment to an entry of a nil map panics: execution continues only with a non-nil map
+		g.assume(implies(f.curReach, not(eq(m.S, "nilptr"))))
 		d := f.cur.get(dk)
 		vv := f.cur.get(vk)
 		f.cur.set(dk, app("store", d, m.S, app("store", app("select", d, m.S), k.S, "true")))
